@@ -383,3 +383,8 @@ func errKindLLO(err error) string {
 
 var _ = bytes.Equal
 var _ = json.Marshal
+
+func ocrCtx(seq uint64) ocr3types.OutcomeContext { return ocr3types.OutcomeContext{SeqNr: seq} }
+func ocrAO(raw []byte) types.AttributedObservation {
+	return types.AttributedObservation{Observation: raw}
+}
